@@ -821,7 +821,7 @@ func (t *Teamserver) EventAppend(event packager.Package) []packager.Package {
 func (t *Teamserver) EventRemove(EventID int) []packager.Package {
 	t.EventsList = append(t.EventsList[:EventID], t.EventsList[EventID+1:]...)
 
-	return append(t.EventsList[:EventID], t.EventsList[EventID+1:]...)
+	return t.EventsList
 }
 
 func (t *Teamserver) SendAllPackagesToNewClient(ClientID string) {
